@@ -277,7 +277,7 @@ def run_shards(shards, wall_limit, grace=45):
                 s.rc = rc
                 s.logf.close()
                 running.remove(s)
-                if rc != 0 and fail_deadline is None:
+                if rc != 0 and fail_deadline is None and grace is not None:
                     # a shard has found (and shrunk) a failure: the verdict is decided; give the others a short
                     # grace period to finish their own shrinking, do not start new ones
                     fail_deadline = time.time() + grace
@@ -484,7 +484,7 @@ def check_floors(p, tot):
     return weak
 
 
-def run_check(pid, tier, seed):
+def run_check(pid, tier, seed, failfast=True):
     global RACY_ATTEMPTS
     p = props.PROPS[pid]
     RACY_ATTEMPTS = p.get("racy_replays", 0)
@@ -567,9 +567,10 @@ def run_check(pid, tier, seed):
                 sh.fbin = fbin
                 fuzz_shards.append(sh)
                 shards.append(sh)
-        if fuzz_shards:
-            # start the fuzzers first (with fail-fast a failing rapidcheck shard would keep them from ever starting)
-            shards = fuzz_shards + [x for x in shards if not getattr(x, "fuzzer", None)]
+        # start the fuzzers and the mode drivers first (with fail-fast a failing rapidcheck shard would keep them
+        # from ever starting)
+        first = fuzz_shards + [x for x in shards if 100 <= x.idx < 200 and not getattr(x, "fuzzer", None)]
+        shards = first + [x for x in shards if x not in first]
         fill = p.get("fill_differential")
         if fill:
             # heap-fill differential (uninitialised reads): every shard runs a second time with another
@@ -593,7 +594,7 @@ def run_check(pid, tier, seed):
             shards.append(Shard(300, ["valgrind", "-q", "--error-exitcode=77", "--exit-on-first-error=yes", "--leak-check=full",
                                       "--errors-for-leak-kinds=definite", "--child-silent-after-fork=yes", vbin, "--no-isolate",
                                       "--out", od, "--known", KNOWN] + extra_args, e, od))
-        timed_out = run_shards(shards, cfg.get("wall_limit", 1500 if tier == "quick" else 7200))
+        timed_out = run_shards(shards, cfg.get("wall_limit", 1500 if tier == "quick" else 7200), grace=45 if failfast else None)
         if fill and not timed_out:
             for tw in [x for x in shards if getattr(x, "twin_of", None)]:
                 a = tw.twin_of
@@ -770,6 +771,12 @@ def run_check(pid, tier, seed):
         extra_cov = {"replayed_regression_cases": n_regress}
         if tot["notes"].get("exhaustive"):
             extra_cov["exhaustive_subspaces"] = tot["notes"]["exhaustive"]
+        if failfast and not violations and not inconclusive and any(s.rc is None for s in shards) and \
+                any(s.rc not in (0, None) for s in shards):
+            # a shard failed and ended the run early, but nothing it found could be confirmed: the shards that were
+            # stopped or never started may still hold a confirmable failure - run everything to the end
+            log("[info] %s: a failing shard ended the run early but its failure was not confirmed; second pass without fail-fast" % pid)
+            return run_check(pid, tier, seed, failfast=False)
         wall = time.time() - t0
         write_evidence(pid, p, tier, seed, tot, wall, len(violations), extra_cov, inconclusive, weak, unreproduced)
         kl = known_lines(pid)
